@@ -813,9 +813,25 @@ impl Iterator for ClosestBucketsIter {
                     self.state = ClosestBucketsIterState::ZoomIn(i);
                     Some(i)
                 } else {
+                    // Start zooming out at the first bucket that has not been visited yet.
+                    // Bucket `0` has already been yielded if the corresponding bit is set in the
+                    // distance (zooming in) or if the distance is zero (starting bucket).
                     let i = BucketIndex(0);
-                    self.state = ClosestBucketsIterState::ZoomOut(i);
-                    Some(i)
+                    if self.distance.0.bit(0) || self.distance.0.is_zero() {
+                        match self.next_out(i) {
+                            Some(i) => {
+                                self.state = ClosestBucketsIterState::ZoomOut(i);
+                                Some(i)
+                            }
+                            None => {
+                                self.state = ClosestBucketsIterState::Done;
+                                None
+                            }
+                        }
+                    } else {
+                        self.state = ClosestBucketsIterState::ZoomOut(i);
+                        Some(i)
+                    }
                 }
             }
             ClosestBucketsIterState::ZoomOut(i) => {
